@@ -8,6 +8,24 @@ ROOT = os.path.dirname(os.path.dirname(os.path.abspath(__file__)))
 
 # id -> (level category, technique, level text, level note, design section)
 CLAIMED = {
+    "C01": ("exploration", "reference-model differential monitor (DataFusion reference, SQLite arbiter, tie-aware ordered comparison)",
+            "Seeded mixed-stratum SELECT statements over generated databases in three physical layouts; every answered statement is judged against DataFusion; a disagreement is a violation only when SQLite sides with DataFusion.",
+            "Trusts DataFusion 54 + SQLite 3.40 agreeing with each other; statements that would trip the recorded GroupKeyReduction finding (C03) run with that one rule removed."),
+    "C02": ("exploration", "executable Kleene model as oracle, exhaustive over small predicate trees and operand nullness",
+            "Every tree atom | NOT atom | atom AND/OR atom | NOT(...) over a 33-atom alphabet (exhaustive) plus random depth-3 trees, on a table holding every combination of {NULL,1,2,3}^3, in WHERE / SELECT-list / CASE / HAVING / inner ON / left ON, memory and two Parquet layouts.",
+            "The model is cross-checked against DataFusion on every tree (SQLite decides when they differ)."),
+    "C03": ("exploration", "engine-vs-engine differential monitor: unoptimized bound plan vs pipeline, each rule alone, pipeline prefixes",
+            "The unoptimized bound plan lowered by the same physical planner defines the answer; the production pipeline, each of the 15 rules alone and (thorough) each prefix must return the same rows over Parquet tables with statistics and over memory tables.",
+            "Semantic correctness of the unoptimized answer itself is C01's business."),
+    "C05": ("exploration", "soundness monitor on real row groups: pruning decisions vs the engine's interpreter on the decoded group + Parquet-vs-memory end-to-end",
+            "might_match=false must imply no row satisfies the predicate and definitely_matches=true that all do, for real Parquet row groups with hostile values and predicates of every column/literal type combination.",
+            "The engine's interpreter defines which rows a predicate keeps."),
+    "C06": ("exploration", "bitwise mask comparison compiled-vs-interpreted + two-process QE_COMPILE differential",
+            "Compiled mask vs interpreter mask (validity everywhere, values where valid) on generated expressions and hostile batches; plus identical seeded queries in a QE_COMPILE=0 and a default worker process.",
+            "Expressions are generated inside and just outside the compiled subset."),
+    "C07": ("exploration", "multi-process schedule differential: RAYON_NUM_THREADS in {1,2,(3,4,)8,16} x batch splits x repetitions",
+            "The same seeded statements over medium tables in 5-40 batches and Parquet, executed by worker processes with different thread counts and repeated; every answer must equal the 1-thread first answer. Evidence counts distinct row-arrival orders observed.",
+            "Schedules are sampled, not enumerated."),
     "C11": ("exploration", "invariant monitor over real Parquet footers + independent inventory oracle",
             "Generated file sets x node counts: interval-cover, byte/row conservation, canonical order, permutation/relocation invariance and digest sensitivity are asserted on every enumeration; held on the sample explored.",
             "Trusts the parquet crate's footer reader used by the harness as the independent inventory."),
@@ -23,12 +41,27 @@ CLAIMED = {
     "C16": ("fault_enumeration", "scripted-peer fault enumeration over real loopback sockets",
             "Responses (status lines, header sets, Content-Length kinds, bodies) delivered whole, byte-wise, or cut at byte offsets (every offset for small responses), then close/RST/stall; the client's answer is judged against an independent parse of the bytes actually sent; hang bound = timeout + 5 s.",
             "Without Content-Length the body is EOF-delimited, so truncation there is not demanded."),
+    "C31": ("exploration", "plan well-formedness monitor: schema before/after each rule + behavioural resolution check",
+            "Each of the 15 rules alone and the pipeline on every bound plan of the corpus: no rule error/panic, output column names and types unchanged, rewritten plan lowers and executes when the original does (resolution-class errors only).",
+            "Execution-path errors of a rewritten plan (e.g. a scan that cannot serve the new shape) are counted, not reported here."),
+    "C33": ("exploration", "shadow-accounting monitor over concurrent histories, natively (delay hook) and under Miri",
+            "Concurrent try_allocate/allocate/resize/drop histories: live conditional grants never exceed the limit, sampled usage never exceeds limit + live forced bytes and never wraps, usage equals the sum of live reservations at quiescence and 0 after all are dropped; Miri additionally reports data races and UB on the real memory.rs.",
+            "Interleavings are sampled (native scheduler + injected delays; Miri's randomised scheduler with many seeds), not enumerated."),
+    "C37": ("exploration", "differential monitor against the Arrow kernels",
+            "Generated arrays (NULL densities, runs, constants, overflow-adjacent integers, NaN/-0.0, sliced) through encode/decode and every helper, compared with arrow::compute kernels in value and Ok-vs-Err.",
+            "Arrow's kernels are the definition."),
+    "C38": ("exploration", "formula oracle in f64 with a derived forward-error bound",
+            "All four distance functions, array-vs-literal and array-vs-array, whole and sliced, through the kernels and SQL, against the documented formula with the error bound of 8-lane f32 accumulation.",
+            "Cosine of a zero vector (0/0) is engine-defined and compared engine-vs-engine only."),
     "C41": ("exploration", "round-trip and damaged-input monitor against a harness-side chunked encoder",
             "Random bodies x random chunkings (extensions, trailers, 1-byte chunks, hex case, leading zeros) must decode exactly; encodings damaged in one known way must be rejected; arbitrary bytes must not panic.",
             "Decoder reached through the verif-hooks re-export of the private function."),
     "C42": ("exploration", "set-model oracle over rendered cpulists + grid monitor for the fan-out helper",
             "Random CPU sets rendered with random grouping/order/duplicates/overlaps/whitespace/junk must parse to the sorted set; workers_for checked on a grid incl. 0 and usize::MAX.",
             "Junk tokens contain no digits or signs."),
+    "C43": ("exploration", "ordering-model oracle on kernel distances + rule-removed differential + poisoned-index provider",
+            "ORDER BY <distance> LIMIT k [OFFSET m] in the default exact mode must return the k nearest rows (tie-aware) and equal the plan without VectorSearchPushdown; a provider whose scan_knn returns wrong rows must never be consulted.",
+            "Distances used for ranking are the engine kernel's own (their accuracy is C38's business)."),
 }
 
 NOT_YET = "monitor not built yet in this session (design in DESIGN.md section 3); will be claimed once its check exists"
